@@ -154,5 +154,83 @@ def main(include_known=False):
     sys.exit(1 if fails else 0)
 
 
+def main_facts():
+    """bus edits on a network with FACTS elements (svc, ssc, tcsc), controllers of elements dropped with their bus, zero branches of other
+    types than lines replaced by switches"""
+    import pandapower.control as ct
+    fails = []
+
+    def facts_net():
+        net = pp.create_empty_network()
+        for i in (10, 20, 30, 40):
+            pp.create_bus(net, 110., index=i)
+        pp.create_ext_grid(net, 10)
+        pp.create_line_from_parameters(net, 10, 20, 10., 0.06, 0.3, 10., 1.); pp.create_line_from_parameters(net, 20, 30, 10., 0.06, 0.3, 10., 1.)
+        pp.create_svc(net, 30, x_l_ohm=1., x_cvar_ohm=-10., set_vm_pu=1., thyristor_firing_angle_degree=90.)
+        pp.create_tcsc(net, 30, 40, x_l_ohm=1., x_cvar_ohm=-10., set_p_to_mw=-5., thyristor_firing_angle_degree=140.)
+        pp.create_ssc(net, 40, r_ohm=0., x_ohm=5., set_vm_pu=1.0)
+        pp.create_load(net, 40, 5., 1.)
+        return net
+
+    def facts_dangling(net):
+        out = []
+        bus = set(net.bus.index)
+        for et, cols in (("svc", ["bus"]), ("ssc", ["bus"]), ("tcsc", ["from_bus", "to_bus"])):
+            for c in cols:
+                bad = set(net[et][c]) - bus
+                if bad:
+                    out.append(f"{et}.{c} -> non-existing buses {sorted(bad)}")
+        return out
+    for name, op in (("create_continuous_bus_index", lambda n: pp.create_continuous_bus_index(n)),
+                     ("reindex_buses({30: 31, 40: 41})", lambda n: pp.reindex_buses(n, {30: 31, 40: 41})),
+                     ("drop_buses([40])", lambda n: pp.drop_buses(n, [40])),
+                     ("fuse_buses(20, [30])", lambda n: pp.fuse_buses(n, 20, [30])),
+                     ("select_subnet([10, 20, 30])", lambda n: pp.select_subnet(n, [10, 20, 30], keep_everything_else=True))):
+        net = facts_net()
+        try:
+            r = op(net)
+            if r is not None and hasattr(r, "bus"):
+                net = r
+        except Exception as e:
+            fails.append(f"network with svc / ssc / tcsc, {name}: raised {type(e).__name__}: {str(e)[:100]}")
+            continue
+        for d in facts_dangling(net):
+            fails.append(f"network with svc / ssc / tcsc, {name}: {d}")
+    # controllers of the elements that go with a dropped bus
+    net = pp.create_empty_network()
+    pp.create_buses(net, 4, 20.)
+    pp.create_ext_grid(net, 0)
+    for f, t in ((0, 1), (1, 2), (2, 3)):
+        pp.create_line_from_parameters(net, f, t, 1., 0.1, 0.1, 10., 0.4)
+    pp.create_sgen(net, 3, 1.); pp.create_sgen(net, 2, 1.)
+    ct.ConstControl(net, "sgen", "p_mw", element_index=[0], profile_name=None, data_source=None)
+    pp.drop_buses(net, [3])
+    for c in net.controller.object:
+        tgt = [i for i in np.atleast_1d(getattr(c, "element_index", [])) if i not in net[getattr(c, "element", "sgen")].index]
+        if tgt:
+            fails.append(f"drop_buses([3]) drops sgen 0 with its bus; a ConstControl still targets sgen {tgt} (sgen index now {list(net.sgen.index)})")
+    # replace_zero_branches_with_switches on impedances
+    net = pp.create_empty_network()
+    pp.create_buses(net, 3, 20.)
+    pp.create_ext_grid(net, 0)
+    pp.create_line_from_parameters(net, 0, 1, 1., 0.1, 0.1, 10., 0.4)
+    pp.create_impedance(net, 1, 2, 1e-7, 1e-7, 10.); pp.create_impedance(net, 0, 2, 0.01, 0.02, 10.)
+    pp.create_load(net, 2, 1.)
+    pp.create_group(net, ["impedance"], [[0]], name="g")
+    pp.runpp(net)
+    pp.replace_zero_branches_with_switches(net, elements=("impedance",), min_rft_pu=1e-6, min_xft_pu=1e-6, min_rtf_pu=1e-6, min_xtf_pu=1e-6,
+                                           drop_affected=True)
+    if not set(net.res_impedance.index) <= set(net.impedance.index):
+        fails.append(f"replace_zero_branches_with_switches(drop_affected=True): impedance index {list(net.impedance.index)}, res_impedance index "
+                     f"{list(net.res_impedance.index)}")
+    for d in dangling(net):
+        fails.append(f"replace_zero_branches_with_switches(drop_affected=True): {d}")
+    for f in fails:
+        print("REPRODUCED:", f)
+    if not fails:
+        print("not reproduced: no dangling references after the replayed edits of networks with FACTS elements / controllers / zero impedances")
+    sys.exit(1 if fails else 0)
+
+
 if __name__ == "__main__":
     main()
